@@ -183,6 +183,15 @@ Section GateP.
   Qed.
 End GateP.
 
+(* an item without conditions of some kind always passes that gate *)
+Theorem empty_group_always {C} (ev : C -> outcome bool) (g : ngroup C) :
+  wf_ngroup g -> n_conds g = [] -> gate ev g = Ok true.
+Proof.
+  intros Hwf He. rewrite (gate_ok ev g (fun _ => true) Hwf).
+  - unfold group_holds. rewrite He. reflexivity.
+  - rewrite He. intros kv [].
+Qed.
+
 Lemma group_holds_ext {C} (h h' : C -> bool) (g : ngroup C) :
   (forall kv, In kv (n_conds g) -> h (snd kv) = h' (snd kv)) -> group_holds h g = group_holds h' g.
 Proof.
